@@ -160,6 +160,214 @@ var Corruptions = map[string][]core.Corruption{
 			return true
 		}},
 	},
+	"C02": {
+		{Name: "flip-verdict", Apply: func(tr core.Case) bool {
+			e := firstEvent(tr, "solve")
+			if e == nil || s(e, "status") != "SAT" {
+				return false
+			}
+			e["status"], e["model"] = "UNSAT", []bool{}
+			return true
+		}},
+	},
+	"C04": {
+		{Name: "cost-plus-one", Apply: func(tr core.Case) bool {
+			for _, op := range []string{"solve", "optimal"} {
+				if e := firstEvent(tr, op); e != nil && n(e, "cost") >= 0 && (op == "solve" && !b(e, "isNil") || op == "optimal" && s(e, "status") == "SAT") {
+					e["cost"] = n(e, "cost") + 1
+					return true
+				}
+			}
+			return false
+		}},
+	},
+	"C07": {
+		{Name: "drop-a-clause-of-the-mus", Apply: func(tr core.Case) bool {
+			e := firstEvent(tr, "mus")
+			if e == nil || b(e, "err") {
+				return false
+			}
+			res, _ := e["res"].(map[string]any)
+			cl, _ := res["clauses"].([]any)
+			if len(cl) < 1 {
+				return false
+			}
+			res["clauses"], res["nb"] = cl[1:], len(cl)-1
+			return true
+		}},
+		{Name: "claim-satisfiable", Apply: func(tr core.Case) bool {
+			e := firstEvent(tr, "mus")
+			if e == nil || b(e, "err") {
+				return false
+			}
+			e["err"] = true
+			return true
+		}},
+	},
+	"C08": {
+		{Name: "flip-the-checker-answer", Partial: true, Apply: func(tr core.Case) bool {
+			e := firstEvent(tr, "check")
+			if e == nil || b(e, "err") {
+				return false
+			}
+			e["valid"], e["valid2"] = !b(e, "valid"), !b(e, "valid")
+			return true
+		}},
+	},
+	"C09": {
+		{Name: "flip-last-verdict", Apply: func(tr core.Case) bool {
+			var last map[string]any
+			for _, e := range evs(tr) {
+				if s(e, "op") == "solve" {
+					last = e
+				}
+			}
+			if last == nil || s(last, "status") != "SAT" {
+				return false
+			}
+			last["status"], last["model"] = "UNSAT", []bool{}
+			return true
+		}},
+	},
+	"C10": {
+		{Name: "flip-last-verdict", Apply: func(tr core.Case) bool {
+			var last map[string]any
+			for _, e := range evs(tr) {
+				if s(e, "op") == "solve" {
+					last = e
+				}
+			}
+			if last == nil || s(last, "status") != "SAT" {
+				return false
+			}
+			last["status"], last["model"] = "UNSAT", []bool{}
+			return true
+		}},
+	},
+	"C11": {
+		{Name: "claim-unsatisfiable", Apply: func(tr core.Case) bool {
+			e := firstEvent(tr, "solve")
+			if e == nil || b(e, "isNil") {
+				return false
+			}
+			e["isNil"], e["dom"], e["val"] = true, []int{}, []bool{}
+			return true
+		}},
+	},
+	"C12": {
+		{Name: "drop-an-exported-clause", Partial: true, Apply: func(tr core.Case) bool {
+			e := firstEvent(tr, "dimacs")
+			if e == nil {
+				return false
+			}
+			cl, _ := e["clauses"].([]any)
+			if len(cl) < 1 {
+				return false
+			}
+			e["clauses"], e["hdrClauses"] = cl[1:], n(e, "hdrClauses")-1
+			return true
+		}},
+	},
+	"C13": {
+		{Name: "claim-parse-error", Apply: func(tr core.Case) bool {
+			for _, op := range []string{"parse", "eparse"} {
+				if e := firstEvent(tr, op); e != nil && !b(e, "err") {
+					e["err"] = true
+					return true
+				}
+			}
+			return false
+		}},
+		{Name: "one-more-variable", Apply: func(tr core.Case) bool {
+			e := firstEvent(tr, "eparse")
+			if e == nil || b(e, "err") {
+				return false
+			}
+			d, _ := e["d"].(map[string]any)
+			d["n"] = n(d, "n") + 1
+			return true
+		}},
+	},
+	"C14": {
+		{Name: "flip-verdict", Apply: func(tr core.Case) bool {
+			e := firstEvent(tr, "solve")
+			if e == nil || s(e, "status") != "SAT" {
+				return false
+			}
+			e["status"], e["model"] = "UNSAT", []bool{}
+			return true
+		}},
+	},
+	"C15": {
+		{Name: "replace-the-constraints-by-a-fact", Partial: true, Apply: func(tr core.Case) bool {
+			e := firstEvent(tr, "amo")
+			if e == nil {
+				return false
+			}
+			after, _ := e["after"].(map[string]any)
+			cons, _ := after["cons"].([]any)
+			if len(cons) < 1 || s(after, "status") == "UNSAT" {
+				return false
+			}
+			// every constraint replaced by a unit fact on the first literal of the first one, negated twice over:
+			// the dump then has a different model set unless the problem had none
+			first, _ := cons[0].(map[string]any)
+			lits, _ := first["lits"].([]any)
+			if len(lits) == 0 {
+				return false
+			}
+			after["cons"] = []any{}
+			after["units"] = []any{lits[0]}
+			return true
+		}},
+	},
+	"C18": {
+		{Name: "claim-not-accepted-by-parser", Apply: func(tr core.Case) bool {
+			for _, op := range []string{"print", "eprint"} {
+				if e := firstEvent(tr, op); e != nil && !b(e, "reErr") && !b(e, "panic") {
+					e["reErr"] = true
+					return true
+				}
+			}
+			return false
+		}},
+	},
+	"C17": {
+		{Name: "flip-accept", Apply: func(tr core.Case) bool {
+			e := firstEvent(tr, "parse")
+			if e == nil || b(e, "panic") {
+				return false
+			}
+			e["err"] = !b(e, "err")
+			return true
+		}},
+	},
+	"C19": {
+		{Name: "exit-zero-on-error", Apply: func(tr core.Case) bool {
+			e := firstEvent(tr, "run")
+			if e == nil || s(tr, "kind") != "bad" {
+				return false
+			}
+			e["exit"] = 0
+			return true
+		}},
+		{Name: "count-plus-one", Apply: func(tr core.Case) bool {
+			e := firstEvent(tr, "run")
+			if e == nil || s(tr, "mode") != "count" || s(tr, "kind") == "bad" {
+				return false
+			}
+			e["count"] = n(e, "count") + 1
+			return true
+		}},
+		{Name: "flip-answer-line", Apply: func(tr core.Case) bool {
+			e := firstEvent(tr, "run")
+			if e == nil || s(tr, "kind") != "cnf" || s(tr, "mode") != "solve" || s(e, "s") != "SATISFIABLE" {
+				return false
+			}
+			e["s"], e["hasV"], e["v"] = "UNSATISFIABLE", false, []int{}
+			return true
+		}},
+	},
 	"C20": {
 		{Name: "swap-two-streamed-results", Apply: func(tr core.Case) bool {
 			e := firstEvent(tr, "optimal")
